@@ -49,7 +49,14 @@ inductive Domain where
   | always
   | chain
   | regions (rs : List (Int × Int))
-  deriving Repr, Inhabited
+  deriving DecidableEq, Repr, Inhabited
+
+/-- the parameters of the decay `exp(-a (d - lower)^p)` when the power is a non-negative integer -/
+structure Decay where
+  a : Rat          -- decay_factor
+  lower : Rat      -- lower_bound, nm
+  p : Nat          -- decay_power
+  deriving DecidableEq, Repr, Inhabited
 
 structure Params where
   names : List String
@@ -59,6 +66,7 @@ structure Params where
   minForce : Rat
   kTab : List (Nat × Rat)
   dom : Domain
+  decay : Option Decay := none
   deriving Inhabited
 
 abbrev V3 := Int × Int × Int
@@ -218,11 +226,31 @@ def domFull (sel : List Nat) (atoms : List Atom) (d : Domain) : List (List Bool)
 
 /-! ### force constants -/
 
-/-- base constant × decay, looked up by squared distance; `decay_factor = 0` gives the base -/
+/-- `d = sqrt(d2)/256 < lower`, decided on squares (`lower ≥ 0`) -/
+def belowLower (lower : Rat) (d2 : Nat) : Bool := 0 ≤ lower && (d2 : Rat) < (lower * 256) * (lower * 256)
+
+/-- `d = lower` -/
+def onLower (lower : Rat) (d2 : Nat) : Bool := 0 ≤ lower && (d2 : Rat) = (lower * 256) * (lower * 256)
+
+/-- The cases in which the decay `exp(-a (d - lower)^p)` is ≥ 1 whatever `exp` is, so that the capped constant is
+the base constant EXACTLY: no decay at all (`a = 0`), `d = lower` with `p ≥ 1`, or `a > 0`, `d < lower` and `p` odd
+(for even `p` the decay applies below the lower bound as well). -/
+def noDecay (dec : Decay) (d2 : Nat) : Bool :=
+  dec.a == 0 || (dec.p != 0 && onLower dec.lower d2) || (decide (0 < dec.a) && dec.p % 2 == 1 && belowLower dec.lower d2)
+
+def noDecayAt (p : Params) (d2 : Nat) : Bool :=
+  match p.decay with
+  | some dec => decide (0 ≤ p.base) && noDecay dec d2
+  | none => false
+
+/-- base constant × decay by squared distance: the base constant itself where the decay cannot lower it
+(`noDecayAt`; the code computes `base·decay ≥ base` there, and the cap brings it back to `base`:
+`capped_of_ge_base`), else the input table; `decay_factor = 0` (empty table) gives the base -/
 def kOf (p : Params) (d2 : Nat) : Rat :=
-  match p.kTab.lookup d2 with
-  | some k => k
-  | none => p.base
+  if noDecayAt p d2 then p.base
+  else match p.kTab.lookup d2 with
+    | some k => k
+    | none => p.base
 
 /-- `compute_force_constants`, one entry -/
 def forceConst (p : Params) (diag : Bool) (d2 : Nat) : Rat :=
@@ -242,6 +270,23 @@ def roundSqrtScaled (num den d2 : Nat) : Nat :=
 
 /-- 1e5 / 256 = 3125 / 8 -/
 def len5Of (d2 : Nat) : Nat := roundSqrtScaled 3125 8 d2
+
+/-- what the length oracle tests on a rendered length `n`·1e-5 nm: `|n - sqrt(d2)·num/den| ≤ 1/2`, as the integer
+inequality `(2n-1)²·den² ≤ 4·d2·num² ≤ (2n+1)²·den²` (for `n = 0` the left part is void: truncated subtraction) -/
+def roundAdmissible (num den d2 n : Nat) : Bool :=
+  (2 * n - 1) * (2 * n - 1) * (den * den) ≤ 4 * d2 * (num * num) &&
+  4 * d2 * (num * num) ≤ (2 * n + 1) * (2 * n + 1) * (den * den)
+
+/-- the smallest and the largest admissible `n` (they differ, by one, exactly on a tie) -/
+def roundBounds (num den d2 : Nat) : Nat × Nat :=
+  let x := 4 * d2 * (num * num)
+  let r := Nat.sqrt (x / (den * den))
+  let hi := (r + 1) / 2
+  if r % 2 = 1 ∧ r * r * (den * den) = x then (hi - 1, hi) else (hi, hi)
+
+def lenAdmissible (d2 n : Nat) : Bool := roundAdmissible 3125 8 d2 n
+
+def lenBounds (d2 : Nat) : Nat × Nat := roundBounds 3125 8 d2
 
 /-! ### the whole function -/
 
@@ -316,7 +361,7 @@ structure Proc where
   bondTypeVar : String
   resMinDistVar : String
   dom : Domain
-  deriving Inhabited
+  deriving DecidableEq, Inhabited
 
 /-- what `run_molecule` hands to `apply_rubber_band` -/
 structure Options where
@@ -354,9 +399,15 @@ structure MolInput where
 /-- squared cut-off in lattice units: `d ≤ upper` iff `d2 ≤ ⌊(256·upper)²⌋` for `upper ≥ 0` -/
 def upper2Of (upper : Rat) : Nat := ((upper * 256) * (upper * 256)).floor.toNat
 
+/-- the decay parameters of the processor when the power is a non-negative integer -/
+def decayOfOptions (o : Options) : Option Decay :=
+  if o.decayPower.den = 1 ∧ 0 ≤ o.decayPower.num then
+    some { a := o.decayFactor, lower := o.lower, p := o.decayPower.num.toNat }
+  else none
+
 def paramsOfOptions (o : Options) (kTab : List (Nat × Rat)) : Params :=
   { names := o.names, sep := o.resMinDist.toNat, upper2 := upper2Of o.upper, base := o.base,
-    minForce := o.minForce, kTab := kTab, dom := o.dom }
+    minForce := o.minForce, kTab := kTab, dom := o.dom, decay := decayOfOptions o }
 
 /-- `ApplyRubberBand(...).run_molecule(molecule)` of a freshly constructed processor:
 the outcome and the bond type written into every bond -/
@@ -372,5 +423,13 @@ def procStep (p : Proc) (m : MolInput) : Proc × (Outcome × Int) := (p, runMole
 def runHistory (p : Proc) : List MolInput → List (Outcome × Int)
   | [] => []
   | m :: ms => (procStep p m).2 :: runHistory (procStep p m).1 ms
+
+/-- several processor objects — which may have been given the SAME criterion object or selector — applied in any
+interleaving to molecules: the i-th object is used and put back as it is after each application -/
+def runInterleaved (ps : List Proc) : List (Nat × MolInput) → List (Outcome × Int)
+  | [] => []
+  | im :: rest =>
+      (procStep (ps.getD im.1 default) im.2).2 ::
+        runInterleaved (ps.set im.1 (procStep (ps.getD im.1 default) im.2).1) rest
 
 end C15
